@@ -2,8 +2,17 @@
 from __future__ import annotations
 
 import hashlib
+import re
 
 import numpy as np
+
+_ADDR = re.compile(r"0x[0-9a-fA-F]{6,}")
+
+
+def _noaddr(text: str) -> str:
+    """default object reprs contain memory addresses; they are identities, not answers"""
+    return _ADDR.sub("0x?", text)
+
 
 from geometer.base import Tensor, TensorDiagram
 
@@ -111,7 +120,7 @@ def canon(v, depth: int = 0, _path=()):
     """Canonical, bit-exact description of a returned value or raised exception."""
     if isinstance(v, BaseException):
         dv = getattr(v, "dependent_values", None)
-        return ("exc", type(v).__name__, str(v)[:2000], canon(dv, depth + 1) if dv is not None else None)
+        return ("exc", type(v).__name__, _noaddr(str(v)[:2000]), canon(dv, depth + 1) if dv is not None else None)
     if isinstance(v, Tensor):
         if id(v) in _path or depth > 12:
             return ("cycle", type(v).__name__)
@@ -126,7 +135,7 @@ def canon(v, depth: int = 0, _path=()):
     if v is None or isinstance(v, (bool, int, float, complex, str, np.generic)):
         if isinstance(v, np.generic):
             return ("g", v.dtype.str, v.tobytes())
-        return ("s", type(v).__name__, repr(v))
+        return ("s", type(v).__name__, _noaddr(repr(v)) if isinstance(v, str) else repr(v))
     if isinstance(v, (list, tuple)):
         if depth > 6:
             return ("o", type(v).__name__)
